@@ -524,6 +524,25 @@ register("C05", {
                     "fresh origins) are the arbiters of usability and capacity"],
 }, FAMS05)
 
+def _histories06():
+    # concurrent histories (2-5 callers, all protocols and proxies, faults, scope / deadline
+    # cancellations, connection retries with back-off) ended by pool.aclose(): nothing the
+    # pool opened may still be open
+    from .common import PoolMixFamily
+
+    def post(res):
+        if not res.error:
+            oracles.leak_oracle(res, "C06")
+
+    FAMS06.append(PoolMixFamily(
+        "C06", "histories-async", 1500, 25000,
+        {"exec": "asyncio", "faulty": True, "cancels": True, "cancel_kinds": ["scope", "deadline"],
+         "p_srv_idle_close": 0.1, "p_h2_events": 0.3, "retries": [0, 0, 1, 3],
+         "fault_rates": [0.03, 0.08, 0.2]}, [], [post]))
+
+
+_histories06()
+
 register("C06", {
     "level": "fault_enumeration",
     "rule": "same sweep as C05 (every cancel point and every fault index on seeded bases of "
